@@ -316,6 +316,14 @@ Definition drivers_ok (ids : list bytes) (t : list (bytes * bytes * bool)) : boo
   forallb (fun e => Bool.eqb (snd e) (ends_pp (fst (fst e)))) t
   && forallb (fun i => negb (ends_pp i) || match driver_pp t i with Some _ => true | None => false end) ids.
 
+(* c.rs generate_hash_key may filter the client environment before it calls the key functions: then the filter must
+   keep every variable of BOTH allow-lists (else e.g. CPATH never reaches the preprocessor-level key) *)
+Definition prefilter_ok (pf : option (list bytes)) (sp : spec) : bool :=
+  match pf with
+  | None => true
+  | Some l => forallb (allowed l) (allow_main sp) && forallb (allowed l) (allow_pp sp)
+  end.
+
 Definition spec_good (sp : spec) : Prop :=
   shape_c sp = expected_shape_c /\ shape_p sp = expected_shape_p /\ tags_ok sp = true /\ allow_ok sp = true.
 
